@@ -162,7 +162,22 @@ def check(pid, tier):
     evpath = os.path.join(EVID, f"{pid}.json")
     try:
         mod, ctx = run_property(pid, tier)
-    except build.BuildError as e:
+    except Exception as e:  # a crashing rule must not pass silently: fail closed
+        if isinstance(e, build.BuildError):
+            raise_build = e
+        else:
+            import traceback
+
+            tb = traceback.format_exc()
+            rp = os.path.join(REPLAY, f"{pid}-crash.json")
+            with open(rp, "w") as fh:
+                json.dump({"property": pid, "error": tb}, fh, indent=1)
+            print(f"MISSING: [checker] rule evaluation crashed on this tree (treated as undecided): {tb.splitlines()[-1]}  key=checker:crash")
+            print(tb)
+            print(f"VIOLATION property={pid} replay={rp}")
+            _write_evidence(evpath, pid, tier, seed, None, None, [], [], time.time() - t0, build_error="rule crash: " + tb[-400:])
+            return 1
+        e = raise_build
         # cannot analyse the tree: fail closed
         rp = os.path.join(REPLAY, f"{pid}-build.json")
         with open(rp, "w") as fh:
